@@ -53,6 +53,9 @@ fn main() {
         std::process::exit(2);
     }
     let id = args[1].clone();
+    if args.get(2).map(String::as_str) != Some("--child") {
+        sweep_scratch(false);
+    }
     if id == "audit" {
         match e3::audit() {
             Ok(r) => {
